@@ -26,7 +26,7 @@ ASSUMPTIONS = ['the complete-input run on io.BytesIO(s) is the reference outcome
 SHARDS = {'quick': (16, 14), 'thorough': (16, 700)}
 BUDGET = {'quick': 100, 'thorough': 1500}
 MIN_NONTRIVIAL = {'quick': 500, 'thorough': 5000}
-CFG = {'long_str_pct': 0, 'max_depth': 2, 'max_comps': 3, 'any_long_pct': 0, 'str_sizes': [0, 1, 2, 3, 5, 8, 13, 20]}
+CFG = {'long_str_pct': 0, 'max_depth': 2, 'max_comps': 3, 'any_long_pct': 0, 'str_sizes': [0, 1, 2, 3, 5, 8, 13, 20], 'many_elems_pct': 0}
 TECHNIQUE = 'property-based generation of streams + exhaustive / sampled arrival schedules on stream doubles, differential oracle'
 EXHAUSTIVE_LEN = {'quick': 9, 'thorough': 12}
 
@@ -225,6 +225,32 @@ def drive_growing_bytesio(codec, encs, T, spec):
     return out, final
 
 
+def drive_reiterated_bytesio(codec, encs, T, spec):
+    """A caller-owned io.BytesIO and ONE decoder object: the caller iterates it until it stops (the buffer is drained, at the
+    end of an encoding), appends the next encoding and iterates the same object again. -> (outputs, final)"""
+    st = io.BytesIO()
+    out, final = [], 'stop'
+    try:
+        dec = lib.DEC[codec].StreamingDecoder(st, asn1Spec=spec) if spec is not None else lib.DEC[codec].StreamingDecoder(st)
+        for e in encs:
+            pos = st.tell()
+            st.seek(0, io.SEEK_END)
+            st.write(e)
+            st.seek(pos)
+            n = 0
+            for x in dec:
+                n += 1
+                if n > 4 * len(encs) + 8:
+                    return out, 'livelock'
+                if isinstance(x, _base.Asn1Item):
+                    out.append(snap(T, x, spec))
+    except error.PyAsn1Error as ex:
+        final = lib.Out('err', exc=ex).errclass()
+    except Exception as ex:
+        final = 'leak:' + type(ex).__name__
+    return out, final
+
+
 def clocked_schedules(s, d, count):
     """(sizes, arrival ticks, eof tick): cuts inside the stream, arrival ticks close together so that bursts land between
     consecutive reads."""
@@ -356,6 +382,16 @@ def run_case(case, col=None, sched_iter=None):
                 F('growing-bytesio-' + sname, 'differs', 'a BytesIO that gets the next encoding after each object gives %d object(s) then %s; complete input gives %d then %s | s=%s'
                   % (len(out), final, len(ref_out), ref_final, s.hex()[:100]), sig='%s/%s' % (final, ref_final),
                   obs={'clocked': None, 'double': 'growing-bytesio', 'spec': sname, 'sizes': [len(e) for e in case['encs']], 'polls': [0], 'eof_late': False})
+            if ref_final == 'stop':
+                out, final = drive_reiterated_bytesio(codec, case['encs'], T, spec)
+                if col is not None:
+                    col.case(s + b'|reiterated-bytesio|' + sname.encode(), False, ['double:reiterated-bytesio', sname],
+                             sample={'type': ir.show_type(T), 'stream': s.hex()[:120], 'guided': spec is not None,
+                                     'double': 'io.BytesIO appended to after the decoder stopped, the same decoder iterated again'})
+                if out != ref_out or final != ref_final:
+                    F('reiterated-bytesio-' + sname, 'differs', 'a decoder iterated again after each appended encoding gives %d object(s) then %s; complete input gives %d then %s | s=%s'
+                      % (len(out), final, len(ref_out), ref_final, s.hex()[:100]), sig='%s/%s' % (final, ref_final),
+                      obs={'clocked': None, 'double': 'growing-bytesio', 'spec': sname, 'sizes': [len(e) for e in case['encs']], 'polls': [0], 'eof_late': False})
         # arrival schedules on the reader's clock
         for sizes, arrivals, eof_tick in clocked:
             for kind in clock_kinds:
@@ -410,7 +446,70 @@ def run_long(case, col=None):
     return fails
 
 
+BIG_TAIL = bytes.fromhex('020105' '0403616263' '0101ff')
+
+
+def run_big(case, col=None):
+    """One large primitive value (beyond the wrapper's buffer, up to more than a MiB) followed by three small ones, without a
+    guiding type, arriving in two or three pieces with idle polls in between: part of the large value, then (after the source
+    ran dry) the rest together with octets of what follows."""
+    n = case['big']
+    head = x690.der(ir.mk('OCTETSTRING'), b'')[:1] + x690.length(n)
+    s = head + (bytes(range(256)) * (n // 256 + 1))[:n] + BIG_TAIL
+    T = ir.mk('OCTETSTRING')
+    fails = []
+    ref = reference('BER', s, T, None)
+    if ref is None or ref[1] != 'stop' or len(ref[0]) != 4:
+        raise harness.HarnessError('large-value stream does not decode as a whole: %r' % (ref and ref[1],))
+    h = len(head)
+    firsts = sorted({1, h - 1, h, h + 1, h + 100, h + n // 2, max(h + 1, h + n - 9000), h + n - 1})
+    scheds = []
+    for c in firsts:
+        scheds.append([c, len(s) - c])
+        for k in (1, 300, 9000):
+            if c + k < h + n:
+                scheds.append([c, k, len(s) - c - k])
+        if c < h + n:
+            scheds.append([c, h + n - c + 1, len(s) - (h + n) - 1])       # the completing piece carries one octet of what follows
+    for sizes in scheds:
+        for polls in ((0, 1), (0, 2), (1, 3)):
+            for kind in ('pipe', 'seekable'):
+                out, final, problems = drive(kind, 'BER', s, sizes, polls, bool(len(sizes) & 1), T, None)
+                if col is not None:
+                    col.case(repr((n, sizes, polls, kind)).encode(), True, ['large-value', 'double:' + kind, 'octets>=%d' % (10 ** (len(str(n)) - 1))],
+                             sample={'large_value_octets': n, 'pieces': sizes, 'idle_polls': list(polls), 'double': kind})
+                if out != ref[0] or final != ref[1]:
+                    fails.append({'sub': 'big-' + kind, 'kind': 'differs', 'sig': '%s/%s' % (str(final).split('@')[0], ref[1]),
+                                  'obs': {'sizes': sizes, 'polls': list(polls)},
+                                  'msg': '%d-octet OCTET STRING + 3 small values in pieces %s (idle polls %s): %d object(s) then %s; complete input gives 4 then stop'
+                                         % (n, sizes, list(polls), len(out), final)})
+                for pk, pm in problems:
+                    fails.append({'sub': 'big-' + kind, 'kind': pk, 'sig': '', 'obs': {'sizes': sizes, 'polls': list(polls)},
+                                  'msg': '%s | %d-octet value, pieces %s' % (pm, n, sizes)})
+    # the same, with the second piece landing on the reader's own clock (between two reads of ONE decoder step)
+    for sizes in scheds:
+        if len(sizes) != 2:
+            continue
+        for tick in range(1, 13):
+            for kind in ('clock-pipe', 'clock-seekable'):
+                out, final, problems = drive_clocked(kind, 'BER', s, sizes, [0, tick], tick + 1 + (tick & 1), T, None)
+                if col is not None:
+                    col.case(repr((n, sizes, tick, kind)).encode(), True, ['large-value', 'double:' + kind, 'octets>=%d' % (10 ** (len(str(n)) - 1))],
+                             sample={'large_value_octets': n, 'pieces': sizes, 'second_piece_at_read_tick': tick, 'double': kind})
+                if out != ref[0] or final != ref[1]:
+                    fails.append({'sub': 'big-' + kind, 'kind': 'differs', 'sig': '%s/%s' % (str(final).split('@')[0], ref[1]),
+                                  'obs': {'sizes': sizes, 'tick': tick},
+                                  'msg': '%d-octet OCTET STRING + 3 small values in pieces %s, the second at read tick %d: %d object(s) then %s; complete input gives 4 then stop'
+                                         % (n, sizes, tick, len(out), final)})
+                for pk, pm in problems:
+                    fails.append({'sub': 'big-' + kind, 'kind': pk, 'sig': '', 'obs': {'sizes': sizes, 'tick': tick},
+                                  'msg': '%s | %d-octet value, pieces %s, tick %d' % (pm, n, sizes, tick)})
+    return fails
+
+
 def replay(case):
+    if case.get('big_only'):
+        return [dict(f, case=ir.to_jsonable(case), obs=ir.to_jsonable(f.get('obs'))) for f in run_big(case)]
     if case.get('long_only'):
         return [dict(f, case=ir.to_jsonable(case), obs=ir.to_jsonable(f.get('obs'))) for f in run_long(case)]
     return [dict(f, case=ir.to_jsonable(case), obs=ir.to_jsonable(f.get('obs'))) for f in run_case(case)]
@@ -429,12 +528,21 @@ def run_shard(desc, seed, tier, col):
             codec = 'DER'
         elif set(ev['forms']) == {'CER'}:
             codec = 'CER'
-        return ({'T': ev['T'], 's': s, 'codec': codec, 'encs': ev['encs'], 'long': d.pct(8),
+        big = None
+        if d.pct(3):
+            big = d.pick([8300, 20000, 70000] if d.pct(70) else [1048577, 1200000])
+        return ({'T': ev['T'], 's': s, 'codec': codec, 'encs': ev['encs'], 'long': d.pct(8), 'big': big,
                  'clocked': [list(x) for x in clocked_schedules(s, d, 40 if tier == 'quick' else 60)]}, list(schedules(s, tier, d)))
 
     def body(x):
         case, scheds = x
         seen = set()
+        if case.get('big'):
+            seen_big = set()
+            for f in run_big(case, col):
+                if (f['sub'], f['kind'], f['sig']) not in seen_big:
+                    seen_big.add((f['sub'], f['kind'], f['sig']))
+                    col.fail(f['sub'], f['kind'], f['msg'], {'big': case['big'], 'big_only': True}, sig=f['sig'], obs=f.get('obs'))
         if case['long']:
             for f in run_long(case, col):
                 col.fail(f['sub'], f['kind'], f['msg'], dict(case, long_only=True), sig=f['sig'], obs=f.get('obs'))
